@@ -27,12 +27,12 @@ func (j Job) timeout(tier string) int {
 		if j.ThoroughT > 0 {
 			return j.ThoroughT
 		}
-		return 3600
+		return 7200
 	}
 	if j.QuickT > 0 {
 		return j.QuickT
 	}
-	return 1200
+	return 2400
 }
 
 // Plan describes how a property is decided.
